@@ -312,21 +312,21 @@ func (f *stubFetcher) GetTx(ctx context.Context, txid bitcoin.Hash32) (*wire.Msg
 // step node
 
 type stepNode struct {
-	ctx       context.Context
-	blockCtx  context.Context // optional role-tagged context for ProcessBlock (harness-owned schedules)
+	ctx      context.Context
+	blockCtx context.Context // optional role-tagged context for ProcessBlock (harness-owned schedules)
 	// optional hooks around ProcessBlock in blockStep (fault injection inside one block)
 	beforeBlock func(h bitcoin.Hash32)
 	afterBlock  func(h bitcoin.Hash32, err error)
-	delivered int             // peer messages handed to the node so far (budget, see deliverNext)
-	cfg       config.Config
-	store     *verifkit.MemStore
-	node      *Node
-	h1, h2    *recHandler
-	peer      *fakePeer
-	fetch     *stubFetcher
-	step      int
-	subs      [][]byte
-	contracts bool
+	delivered   int // peer messages handed to the node so far (budget, see deliverNext)
+	cfg         config.Config
+	store       *verifkit.MemStore
+	node        *Node
+	h1, h2      *recHandler
+	peer        *fakePeer
+	fetch       *stubFetcher
+	step        int
+	subs        [][]byte
+	contracts   bool
 
 	blockThreadDead string // non-empty: processBlocks would have exited with this error
 	txThreadDead    string // non-empty: processUnconfirmedTxs would have stopped the node
